@@ -139,7 +139,7 @@ def history(rng, pre, n, m, a, L):
             ops.append("%ssetone 0 %d %s" % (pre, rng.randint(1, npar), hx(th[0])))
         elif r < 0.88:
             j = rng.randint(1, 3)
-            ops.append("%scopy 0 %d" % (pre, j))
+            ops.append("%s 0 %d" % (("oclone" if rng.random() < 0.5 else "ocopy") if pre == "o" else "copy", j))
             # independence: change the copy, look at the source; change the source, look at the copy
             if npar:
                 th, _ = rand_theta(rng, npar)
@@ -212,6 +212,8 @@ def generate(seed, tier):
                     cases.append(["case vec m%d a%d n%d r%d" % (m, a, n, rep)] + ops)
                 ops = ["newdim 0 %d %d %d" % (n, m, a)] + history(rng, "", n, m, a, rng.randint(2, 5))
                 cases.append(["case dim m%d a%d n%d" % (m, a, n)] + ops)
+                if n == 0:
+                    cases.append(["case oempty m%d a%d n0" % (m, a), "onew 0 %d %d" % (m, a), "oget 0", "onewdim 1 0 %d %d" % (m, a), "oget 1"])
                 if n >= 1:
                     p, _ = rand_probs(rng, n)
                     ops = ["onew 0 %d %d %s" % (m, a, hv(ordered_from_probs(p)))] + history(rng, "o", n, m, a, rng.randint(2, 5))
@@ -239,7 +241,10 @@ def generate(seed, tier):
         a = rng.randint(0, 1)
         n = rng.randint(1, 12)
         p, _ = rand_probs(rng, n)
-        ops = ["new 0 %d %d %s" % (m, a, hv(p))]
+        if rng.random() < 0.65:
+            ops = ["new 0 %d %d %s" % (m, a, hv(p))]
+        else:
+            ops = ["newdim 0 %d %d %d" % (n, m, a)]
         for _ in range(rng.randint(1, 4)):
             ops.append(malformed(rng, n, m, a))
             ops.append("get 0")
